@@ -35,6 +35,9 @@ ASSUMPTIONS = [
 CHECKLINES = [0, 1, 2, 3, 10]
 
 
+_PROCESS = {"printed": False}  # per process: has any case printed a feature here yet?
+
+
 def render_file(case):
     d = case["dialect"]
     out = list(case.get("directives") or [])
@@ -234,17 +237,21 @@ class FilesLeg(object):
         if d["style"] == "gtf" and not case["gtf_infer"]:
             kwargs.update(disable_infer_genes=True, disable_infer_transcripts=True)
         dbpath = ":memory:" if case["memory"] else ctx.path("out.db")
-        if case.get("toggled_before"):
-            # the percent-escape switch was on for an earlier print in this process and is off again
+        if case.get("toggled_before") or not _PROCESS["printed"]:
+            # the percent-escape switch was on for an earlier print in this process and is off again.  Always done by the
+            # first case a process runs (before anything else has been printed there), with every reserved character.
             from gffutils import constants
             from gffutils.feature import feature_from_line as _ffl
 
+            every = "".join("%%%02X" % c for c in list(range(0, 32)) + [127] + [ord(x) for x in ";=%&,"])
             constants.ignore_url_escape_characters = True
             try:
+                str(_ffl("chr1\t.\tgene\t1\t2\t.\t+\t.\tID=sw;Note=" + every))
                 for l_ in [tm.render_line(r, d) for r in recs][:3]:
                     str(_ffl(l_))
             finally:
                 constants.ignore_url_escape_characters = False
+        _PROCESS["printed"] = True
         db = gffutils.create_db(path, dbpath, **kwargs)
 
         chosen, stable = tm.window_vote([(r, d) for r in recs], case["checklines"])
